@@ -811,12 +811,10 @@ func c03Run(c *engine.Ctx) {
 			}
 		}
 	}
-	// (4) reader exploration
-	bound := 1
-	if c.Thorough() {
-		bound = 2
-	}
-	c.Note("reader_deviation_bound", bound)
+	// (4) reader exploration: all schedules with at most one non-default answer here; the thorough
+	// tier repeats the phase with at most two at the very end of the run (it takes the rest of the
+	// budget - placed here, as it was until round 13, it starved everything below)
+	c.Note("reader_deviation_bound", 1)
 	// During the stream phases the element limits are set to a generous finite value (all corpus
 	// counts are <= 3): a decoder that mis-reads a count then fails with an error that the oracle
 	// reports with a replayable schedule, instead of attempting a multi-gigabyte allocation.
@@ -826,35 +824,12 @@ func c03Run(c *engine.Ctx) {
 	follower := ref.NewPoint(geom.XYZ, true, ref.CounterFrom(70))
 	var capped bool
 	streamCorpus := append(append([]*ref.G{}, corpus...), big...)
-	c.Parallel(len(streamCorpus), func(i int) {
-		g := streamCorpus[i]
-		for _, f := range formats {
-			if !f.Ext && !f.NaN && ref.HasEmptyPoint(g) {
-				continue
-			}
-			for _, xdr := range []bool{false, true} {
-				cs := c03Case{Mode: "reader", G: g, G2: follower, XDR: xdr, Ext: f.Ext, NaN: f.NaN}
-				runReader(c, cs, bound, &capped)
-				// and the other way round: this geometry is the LAST one of the stream, so its final
-				// bytes (a count of zero, a coordinate, a nested member) may arrive together with io.EOF
-				runReader(c, c03Case{Mode: "reader", G: follower, G2: g, XDR: xdr, Ext: f.Ext, NaN: f.NaN}, bound, &capped)
-				// the same stream behind other kinds of reader: one that has a (failing) Seek method,
-				// and bufio.Readers with the smallest and the default buffer
-				for rk := 1; rk <= 3; rk++ {
-					crk := cs
-					crk.RK = rk
-					runReader(c, crk, bound, &capped)
-					c.Count("other_reader_kinds", 1)
-				}
-				if len(ref.EncodeWKB(g, xdr, f.Ext)) <= 22 {
-					cs.Full = true
-					cs.G2 = ref.NewCollection(geom.XY) // 9-byte follower keeps the full enumeration small
-					runReader(c, cs, -1, &capped)
-					c.Count("full_composition_encodings", 1)
-				}
-			}
-		}
-	})
+	readerPhase := func(bound int) {
+		c.Parallel(len(streamCorpus), func(i int) {
+			readerPhaseOne(c, streamCorpus[i], formats, follower, bound, &capped)
+		})
+	}
+	readerPhase(1)
 	// (5) writer faults
 	c.Parallel(len(streamCorpus), func(i int) {
 		g := streamCorpus[i]
@@ -871,9 +846,6 @@ func c03Run(c *engine.Ctx) {
 			}
 		}
 	})
-	if capped {
-		c.SetCapped("reader exploration hit its per-case execution cap")
-	}
 	// "nested collections to any depth": a point inside 10 .. 1000 (thorough 5000) collections, one
 	// per level (depths around 200 included - a customary parser limit), bytes and decode
 	depths := []int{10, 64, 100, 199, 200, 201, 255, 256, 257, 500, 1000}
@@ -902,9 +874,47 @@ func c03Run(c *engine.Ctx) {
 	}
 	c.Note("history_depth", hdepth)
 	exploreLive(c, "c03-history", "history", c03LiveStarts(), hdepth, c03LiveQuery)
+	if c.Thorough() && !c.Expired() {
+		c.Note("reader_deviation_bound", 2)
+		readerPhase(2)
+	}
+	if capped {
+		c.SetCapped("reader exploration hit its per-case execution cap")
+	}
 	for _, k := range []string{"bytes_compared", "sql_roundtrips", "sql_wrong_type_rejected", "reader_schedules_ok", "writer_faults_ok", "empty_point_rejected", "unsupported_layout_rejected", "full_composition_encodings"} {
 		if c.Get(k) == 0 {
 			c.Warn("vacuous: counter " + k + " is zero")
+		}
+	}
+}
+
+// readerPhaseOne: the reader schedules of one corpus geometry (see c03Run (4)).
+func readerPhaseOne(c *engine.Ctx, g *ref.G, formats []c03Case, follower *ref.G, bound int, cappedp *bool) {
+	capped := cappedp
+	for _, f := range formats {
+		if !f.Ext && !f.NaN && ref.HasEmptyPoint(g) {
+			continue
+		}
+		for _, xdr := range []bool{false, true} {
+			cs := c03Case{Mode: "reader", G: g, G2: follower, XDR: xdr, Ext: f.Ext, NaN: f.NaN}
+			runReader(c, cs, bound, capped)
+			// and the other way round: this geometry is the LAST one of the stream, so its final
+			// bytes (a count of zero, a coordinate, a nested member) may arrive together with io.EOF
+			runReader(c, c03Case{Mode: "reader", G: follower, G2: g, XDR: xdr, Ext: f.Ext, NaN: f.NaN}, bound, capped)
+			// the same stream behind other kinds of reader: one that has a (failing) Seek method,
+			// and bufio.Readers with the smallest and the default buffer
+			for rk := 1; rk <= 3; rk++ {
+				crk := cs
+				crk.RK = rk
+				runReader(c, crk, bound, capped)
+				c.Count("other_reader_kinds", 1)
+			}
+			if len(ref.EncodeWKB(g, xdr, f.Ext)) <= 22 {
+				cs.Full = true
+				cs.G2 = ref.NewCollection(geom.XY) // 9-byte follower keeps the full enumeration small
+				runReader(c, cs, -1, capped)
+				c.Count("full_composition_encodings", 1)
+			}
 		}
 	}
 }
